@@ -502,3 +502,83 @@ func chosencasesEpilogue(t *tr, pp *packages.Package) string {
 		"/-- regenerated from NewProvider: the `Close` field of the provider is filled -/\ndef newProviderSetsClose : Bool := %v\n\n",
 		chosencasesShortPath(pos.Filename), pos.Line, body, elsewhere, deferFirst, sets)
 }
+
+// chosencasesSourceGuards: which configurations the two source constructors of NewProvider reject — the top-level
+// `if COND { return nil, nil, <error> }` statements of uriReadSeekCloser and fileReadSeekCloser, COND built with && || !
+// from `conf.Decoder != config.DecoderURI` / `==`, `conf.File != ""` / `==`, `path == ""` / `!=` (path = conf.File).
+func chosencasesSourceGuards(t *tr) string {
+	pkg := t.pkg
+	x := &chosencasesCtx{t: t, pkg: pkg, fn: "source constructors"}
+	var cond func(e ast.Expr) string
+	cond = func(e ast.Expr) string {
+		for {
+			p, ok := e.(*ast.ParenExpr)
+			if !ok {
+				break
+			}
+			e = p.X
+		}
+		switch v := e.(type) {
+		case *ast.UnaryExpr:
+			if v.Op == token.NOT {
+				return "(!" + cond(v.X) + ")"
+			}
+		case *ast.BinaryExpr:
+			switch v.Op {
+			case token.LAND:
+				return "(" + cond(v.X) + " && " + cond(v.Y) + ")"
+			case token.LOR:
+				return "(" + cond(v.X) + " || " + cond(v.Y) + ")"
+			case token.EQL, token.NEQ:
+				l, r := chosencasesSrc(pkg, v.X), chosencasesSrc(pkg, v.Y)
+				if l == `""` || l == "config.DecoderURI" {
+					l, r = r, l
+				}
+				atom := ""
+				switch {
+				case l == "conf.Decoder" && r == "config.DecoderURI":
+					atom = "isUri"
+				case (l == "conf.File" || l == "path") && r == `""`:
+					atom = "(!hasFile)"
+				}
+				if atom != "" {
+					if v.Op == token.NEQ {
+						return "(!" + atom + ")"
+					}
+					return atom
+				}
+			}
+		}
+		return x.fail(e, "guard %s", chosencasesSrc(pkg, e))
+	}
+	guards := func(name string) string {
+		fd := findFunc(pkg, name)
+		if fd == nil {
+			t.errs = append(t.errs, "func "+name+" not found")
+			return "false"
+		}
+		out := []string{}
+		for _, s := range fd.Body.List {
+			is, ok := s.(*ast.IfStmt)
+			if !ok || is.Init != nil || is.Else != nil || len(is.Body.List) != 1 {
+				continue
+			}
+			r, ok := is.Body.List[0].(*ast.ReturnStmt)
+			if !ok || len(r.Results) != 3 || chosencasesSrc(pkg, r.Results[0]) != "nil" {
+				continue
+			}
+			if c := chosencasesSrc(pkg, is.Cond); c == "err != nil" {
+				continue // an I/O error of opening the file, not a configuration
+			}
+			out = append(out, cond(is.Cond))
+		}
+		if len(out) == 0 {
+			return "false"
+		}
+		return strings.Join(out, " || ")
+	}
+	return fmt.Sprintf("/-- regenerated from uriReadSeekCloser: the configurations it rejects (`isUri` = conf.Decoder is the uri decoder,\n`hasFile` = conf.File is not empty) -/\n"+
+		"def urisRejected (isUri hasFile : Bool) : Bool := %s\n\n"+
+		"/-- regenerated from fileReadSeekCloser: the configurations it rejects -/\ndef fileRejected (hasFile : Bool) : Bool := %s\n\n",
+		guards("uriReadSeekCloser"), guards("fileReadSeekCloser"))
+}
